@@ -311,7 +311,10 @@ def main(argv=sys.argv):
             #result is unique for this source directory
             out_fn = sanitize_path_comp(out_fmt % meta)
             if out_fn in generated_outs:
-                out_fn += '-%03d' % out_idx
+                uniq_idx = out_idx
+                while '%s-%03d' % (out_fn, uniq_idx) in generated_outs:
+                    uniq_idx += 1
+                out_fn = '%s-%03d' % (out_fn, uniq_idx)
             generated_outs.add(out_fn)
             out_idx += 1
             out_fn = out_fn + args.output_ext
